@@ -327,14 +327,15 @@ class AnsiString:
         end = min(self._slice_val_to_idx(end, len(self._s)), len(self._s))
 
         is_int = isinstance(settings, int) and not isinstance(settings, bool)
-        if (not settings and not is_int) or start >= len(self._s) or end <= start:
+        if not settings and not is_int:
             # Ignore - nothing to apply (note: the integer 0 is the RESET directive, not an empty setting)
             return
 
+        # Parse the settings first so that invalid settings are reported even if the range turns out to be empty
         ansi_settings = _AnsiSettingPoint._scrub_ansi_settings(settings, make_unique=True)
 
-        if not ansi_settings:
-            # Empty set - usually just a string of semicolons was received
+        if not ansi_settings or start >= len(self._s) or end <= start:
+            # Ignore - empty range, or an empty set (usually just a string of semicolons was received)
             return
 
         # Apply settings
@@ -391,7 +392,7 @@ class AnsiString:
         end = min(self._slice_val_to_idx(end, len(self._s)), len(self._s))
 
         is_int = isinstance(settings, int) and not isinstance(settings, bool)
-        if (settings is not None and not settings and not is_int) or start >= len(self._s) or end <= start:
+        if settings is not None and not settings and not is_int:
             # Ignore - nothing to apply (note: the integer 0 is the RESET directive, not an empty setting)
             return
 
@@ -400,6 +401,10 @@ class AnsiString:
             ansi_settings = None
         else:
             ansi_settings = _AnsiSettingPoint._scrub_ansi_settings(settings)
+
+        if start >= len(self._s) or end <= start:
+            # Ignore - empty range
+            return
 
         if start not in self._fmts:
             self._fmts[start] = _AnsiSettingPoint()
